@@ -126,11 +126,12 @@ def rng(prog, rep):
                 rep.check(ok, "C07.rng", inst, site, "generator is default_rng(random_state)",
                           f"random numbers must come from np.random.default_rng(random_state), receiver is {show(recv)[:80]}")
                 continue
-            kw = {k.arg: k.value for k in c.keywords if k.arg}
+            ct = b.term(c, st)
+            kw = dict(ct[3]) if ct[0] == "call" else {}   # keywords of the term: a literal ** display counts as keywords
             if "random_state" not in kw:
                 rep.fail("C07.rng", inst, site, "RNG-consuming call does not receive random_state: the caller's seed is ignored for this draw")
                 continue
-            t = b.term(kw["random_state"], st)
+            t = kw["random_state"]
             rep.check(_rs_ok(t), "C07.rng", inst, site, "random_state threaded",
                       f"random_state= must be the caller's random_state (or default_rng of it), found {show(t)[:100]}")
         # single-Generator rule for samplers that draw more than once
